@@ -6,6 +6,22 @@ cd "$(dirname "$0")"
 export GOFLAGS=-mod=mod GOPROXY=off GOSUMDB=off GOTOOLCHAIN=local CGO_ENABLED=1
 mkdir -p bin evidence replays
 ( cd harness && cat /repo/go.sum go.sum.extra 2>/dev/null | sort -u > go.sum )
-( cd harness && go build -tags verif -o ../bin/vcheck ./cmd/vcheck )
-( cd harness && go build -tags verif -race -o ../bin/vcheck-race ./cmd/vcheck )
+# one binary per engine package (see ./check): generated mains under harness/cmd/dev_<pkg>
+for e in raftsim procluster walcrash smlab model inproc keylab codeclab placelab pdlab synclab englab; do
+  [ -d harness/$e ] || continue
+  mkdir -p harness/cmd/dev_$e
+  { echo "package main"; echo "import ("; echo ' "os"'; echo ' "verif/harness/vc"'; echo " _ \"verif/harness/$e\""
+    echo ")"; echo "func main() { os.Exit(vc.Main(os.Args[1:])) }"; } > harness/cmd/dev_$e/main.go
+  ( cd harness && go build -tags verif -o ../bin/vcheck-dev_$e ./cmd/dev_$e ) || echo "setup: build of $e failed (its checks will report BUILD-FAILED)"
+done
+# sanitizer variants used by children of some checks
+for e in procluster inproc synclab englab keylab; do
+  [ -d harness/$e ] || continue
+  ( cd harness && go build -tags verif -race -o ../bin/vcheck-race-dev_$e ./cmd/dev_$e ) || true
+done
+for e in englab keylab; do
+  [ -d harness/$e ] || continue
+  ( cd harness && go build -tags verif -asan -o ../bin/vcheck-asan-dev_$e ./cmd/dev_$e ) || true
+done
+( cd harness && go build -tags verif -o ../bin/vcheck ./cmd/vcheck ) || true
 echo setup ok
